@@ -7,6 +7,7 @@ package harness
 // Header, Trailer, Peer, PerRPCCredentials, with and without outgoing metadata.
 
 import (
+	"reflect"
 	"context"
 	"encoding/hex"
 	"fmt"
@@ -40,6 +41,10 @@ type metaCase struct {
 	hdr, tlr metadata.MD
 	req      metadata.MD
 	creds    map[string]string
+	creds2   map[string]string // a second PerRPCCredentials option (its keys may repeat the first one's)
+	// what the caller must receive: computed from PRISTINE copies - the objects in hdr / tlr are shared between cases (as a
+	// service that keeps a metadata value around and passes it to every RPC would) and the library must never write into them
+	hdrWant, tlrWant metadata.MD
 	outgoing bool
 	order    int // permutation of the handler's calls for the streaming shape
 }
@@ -96,9 +101,11 @@ func (mw *metaWorld) desc() *grpc.ServiceDesc {
 		if c.hdr != nil {
 			_ = grpc.SetHeader(ctx, c.hdr)
 		}
+		_ = grpc.SetHeader(ctx, metadata.Pairs("h-case", strconv.Itoa(c.id)))
 		if c.tlr != nil {
 			_ = grpc.SetTrailer(ctx, c.tlr)
 		}
+		_ = grpc.SetTrailer(ctx, metadata.Pairs("t-case", strconv.Itoa(c.id)))
 		if err := c.status(); err != nil {
 			return nil, err
 		}
@@ -122,20 +129,28 @@ func (mw *metaWorld) desc() *grpc.ServiceDesc {
 			}
 			i++
 		}
+		hcase := metadata.Pairs("h-case", strconv.Itoa(c.id))
+		tcase := metadata.Pairs("t-case", strconv.Itoa(c.id))
 		switch c.order % 3 {
 		case 0:
 			_ = st.SetHeader(half)
 			_ = st.SetHeader(rest)
+			_ = st.SetHeader(hcase)
 			st.SetTrailer(c.tlr)
+			st.SetTrailer(tcase)
 			_ = st.SendMsg(&wrapperspb.StringValue{Value: "r"})
 		case 1:
 			_ = st.SetHeader(half)
+			_ = st.SetHeader(hcase)
 			_ = st.SendHeader(rest)
 			_ = st.SendMsg(&wrapperspb.StringValue{Value: "r"})
 			st.SetTrailer(c.tlr)
+			st.SetTrailer(tcase)
 		default:
 			st.SetTrailer(c.tlr)
+			st.SetTrailer(tcase)
 			_ = st.SetHeader(c.hdr) // goes out with the close frame
+			_ = st.SetHeader(hcase)
 		}
 		return c.status()
 	}
@@ -169,6 +184,9 @@ func allStrings(c *metaCase) []string {
 	for k, v := range c.creds {
 		out = append(out, k, v)
 	}
+	for k, v := range c.creds2 {
+		out = append(out, k, v)
+	}
 	return out
 }
 
@@ -190,6 +208,25 @@ func hexList(ss []string) string {
 var mdPool = []metadata.MD{nil, {}, metadata.Pairs("a", "1"), metadata.Pairs("a", "1", "a", "2", "b", "x"),
 	metadata.Pairs("k-bin", "plain"), metadata.Pairs("u", "héllo wörld ✓"), metadata.Pairs("e", "")}
 var badMDPool = []metadata.MD{metadata.Pairs("x-bin", "\xff\xfe"), metadata.Pairs("v", "ok", "x-bin", "\x80")}
+
+// pristineOf: deep copies of the pool entries taken before any of them was handed to the library, keyed by the
+// identity of the shared object
+var pristineOf = func() map[uintptr]metadata.MD {
+	m := map[uintptr]metadata.MD{}
+	for _, md := range append(append([]metadata.MD{}, mdPool...), badMDPool...) {
+		if md != nil {
+			m[reflect.ValueOf(md).Pointer()] = md.Copy()
+		}
+	}
+	return m
+}()
+
+func pristine(md metadata.MD) metadata.MD {
+	if md == nil {
+		return metadata.MD{}
+	}
+	return pristineOf[reflect.ValueOf(md).Pointer()].Copy()
+}
 
 func TestW2Meta(t *testing.T) {
 	ops := newOps(t, "meta")
@@ -240,6 +277,18 @@ func TestW2Meta(t *testing.T) {
 					outgoing: rng.Intn(3) != 0, order: rng.Intn(3)}
 				if rng.Intn(3) == 0 {
 					c.creds = map[string]string{"authorization": "bearer t", "x-cred": "1"}
+					switch rng.Intn(3) {
+					case 1:
+						// a credential under a key the caller's outgoing metadata already uses: both values reach the handler
+						for k := range c.req {
+							if c.outgoing && !strings.HasSuffix(k, "-bin") {
+								c.creds[k] = "from-creds"
+								break
+							}
+						}
+					case 2:
+						c.creds2 = map[string]string{"authorization": "second", "x-cred2": "2"}
+					}
 				}
 				if includeBad && j == 2 {
 					switch rng.Intn(4) {
@@ -253,6 +302,8 @@ func TestW2Meta(t *testing.T) {
 						c.msg, c.code = "bad \xff text", codes.Internal
 					}
 				}
+				c.hdrWant = metadata.Join(pristine(c.hdr), metadata.Pairs("h-case", strconv.Itoa(c.id)))
+				c.tlrWant = metadata.Join(pristine(c.tlr), metadata.Pairs("t-case", strconv.Itoa(c.id)))
 				mw.mu.Lock()
 				mw.cases[c.id] = c
 				mw.mu.Unlock()
@@ -284,12 +335,18 @@ func (mw *metaWorld) runCase(ch grpc.ClientConnInterface, c *metaCase) (res stri
 	for k, v := range c.creds {
 		wantReq.Append(k, v)
 	}
+	for k, v := range c.creds2 {
+		wantReq.Append(k, v)
+	}
 	caseMsg := "case:" + strconv.Itoa(c.id)
 	var h, tr metadata.MD
 	var p peer.Peer
 	opts := []grpc.CallOption{grpc.Header(&h), grpc.Trailer(&tr), grpc.Peer(&p)}
 	if c.creds != nil {
 		opts = append(opts, grpc.PerRPCCredentials(mapCreds(c.creds)))
+	}
+	if c.creds2 != nil {
+		opts = append(opts, grpc.PerRPCCredentials(mapCreds(c.creds2)))
 	}
 	var rpcErr error
 	var hdrAtFirstMsg metadata.MD
@@ -344,8 +401,8 @@ func (mw *metaWorld) runCase(ch grpc.ClientConnInterface, c *metaCase) (res stri
 	mw.mu.Lock()
 	seen := mw.seen[c.id]
 	mw.mu.Unlock()
-	hdrOK := mdEq(hdrAtFirstMsg, c.hdr) && mdEq(h, c.hdr)
-	tlrOK := mdEq(tr, c.tlr)
+	hdrOK := mdEq(hdrAtFirstMsg, c.hdrWant) && mdEq(h, c.hdrWant)
+	tlrOK := mdEq(tr, c.tlrWant)
 	reqOK := seen != nil && mdEq(seen, wantReq)
 	peerOK := true // forward tunnel: peer of the carrier, if any
 	// is the tunnel still usable?
